@@ -3,7 +3,7 @@
    and of its partial transpose (eigenvalue, multiplicity).  Along  rho(beta) = I/N + beta Delta / |Delta|_GM,
    |Delta|_GM^2 = Tr(Delta^2)/2, the state-space boundary is  beta_DM = |Delta| / (N |lambda_min(Delta)|)  and the PPT boundary
    the same with the partial-transpose spectrum (the Gell-Mann norm is invariant under partial transposition).  All squares
-   are rational.  Families: diagonal integer states, Werner, isotropic, Bell-diagonal. *)
+   are rational.  Families: diagonal integer states, Werner, isotropic, Bell-diagonal, a Bell pair embedded in rectangular dimensions. *)
 EXTENDS Rat, FiniteSets, TLC
 VARIABLES cfg, obs
 Spec2(spec) == spec            \* sequence of <<eigenvalue (rational), multiplicity>>
@@ -25,9 +25,15 @@ BellSpec(n) == LET N == n[1] + n[2] + n[3] + n[4] IN
 DiagSpec(w) == LET N == FoldLeft(LAMBDA a, x : a + x, 0, w) IN [dm |-> [k \in 1..Len(w) |-> <<R(w[k], N), 1>>], pt |-> [k \in 1..Len(w) |-> <<R(w[k], N), 1>>]]
 Configs == {[fam |-> "Werner", d |-> d, a |-> a, w |-> <<>>] : d \in 2..3, a \in {R(-1, 1), R(-1, 2), R(1, 3), R(3, 4), R(1, 1)}}
            \cup {[fam |-> "Isotropic", d |-> d, a |-> a, w |-> <<>>] : d \in 2..3, a \in {R(-1, 10), R(1, 5), R(1, 2), R(9, 10), R(1, 1)}}
+           \cup {[fam |-> "EmbBell", d |-> d, a |-> a, w |-> <<>>] : d \in {23, 32, 24, 33}, a \in {R(1, 10), R(1, 2), R(9, 10)}}
            \cup {[fam |-> "Bell", d |-> 2, a |-> RZero, w |-> w] : w \in {<<3, 1, 0, 0>>, <<5, 1, 1, 1>>, <<1, 1, 1, 0>>, <<7, 2, 1, 0>>, <<2, 1, 1, 0>>}}
            \cup {[fam |-> "Diag", d |-> 0, a |-> RZero, w |-> w] : w \in {<<3, 1, 0, 0>>, <<1, 2, 3, 4>>, <<1, 0, 0, 0, 0, 2>>, <<2, 2, 1, 1, 1, 1, 0, 0>>, <<5, 1, 1, 1, 1, 0, 0, 0, 0>>}}
-SpecOf(c) == CASE c.fam = "Werner" -> WernerSpec(c.d, c.a) [] c.fam = "Isotropic" -> IsoSpec(c.d, c.a) [] c.fam = "Bell" -> BellSpec(c.w) [] OTHER -> DiagSpec(c.w)
+\* a Bell pair embedded in rectangular local dimensions: rho = (1-p) I/N + p |psi><psi|, |psi> = (|00> + |11>)/sqrt2 in C^dA (x) C^dB
+\* (d = 10 dA + dB).  The partial transpose of the projector has the eigenvalues 1/2 (x3), -1/2 (x1) and 0 (x N-4).
+EmbSpec(d, p) == LET N == (d \div 10) * (d % 10)  base == RDiv(RSub(ROne, p), RFromInt(N))  half == RDiv(p, RFromInt(2)) IN
+   [dm |-> <<<<RAdd(base, p), 1>>, <<base, N - 1>>>>,
+    pt |-> <<<<RAdd(base, half), 3>>, <<RSub(base, half), 1>>, <<base, N - 4>>>>]
+SpecOf(c) == CASE c.fam = "EmbBell" -> EmbSpec(c.d, c.a) [] c.fam = "Werner" -> WernerSpec(c.d, c.a) [] c.fam = "Isotropic" -> IsoSpec(c.d, c.a) [] c.fam = "Bell" -> BellSpec(c.w) [] OTHER -> DiagSpec(c.w)
 RMin(a, b) == IF RLess(a, b) THEN a ELSE b
 Init == cfg \in Configs /\ \E s \in {SpecOf(cfg)} : obs = [N |-> NOf(s.dm), norm2 |-> Norm2(s.dm), dm2 |-> BetaU2(s.dm), pt2 |-> RMin(BetaU2(s.dm), BetaU2(s.pt))]
 Next == UNCHANGED <<cfg, obs>>
